@@ -71,15 +71,20 @@ T("inverse_eigenvector", f"""forall (cell : option RV) (mass : nat -> R) (pos : 
   {FT} (CEigenvector ids refs evec center) ({AP} (CEigenvector ids refs evec center) fc) = fc""", "exact inv_eigenvector.",
   "eigenvector without rotation (any centring): the centred vector must not be null")
 
-T("inverse_rmsd_rotated", f"""forall (cell : option RV) (mass : nat -> R) (pos : RF) (ids : list nat) (refs : list RV) (extra : list (list RV)) (rotf : RF -> RM) (jdf : RF -> R) (fc : R),
+T("inverse_rmsd_rotated", f"""forall (cell : option RV) (mass : nat -> R) (pos : RF) (ids : list nat) (refs : list RV) (extra : list (list RV)) (rotf : RF -> RQ) (jdf : RF -> R) (fc : R),
   NoDup ids -> (forall r, In r (refs :: extra) -> length r = length ids) ->
-  (forall v : RV, mvmul Rops (rotf pos) (mtvmul Rops (rotf pos) v) = v) ->
-  rmsdrot_value Rops pos ids refs (rotf pos) (rmsdrot_best Rops pos ids refs extra (rotf pos)) <> 0 ->
+  qnorm2 Rops (rotf pos) = 1 ->
+  rmsdrot_value Rops pos ids refs (rotmat Rops (rotf pos)) (rmsdrot_best Rops pos ids refs extra (rotmat Rops (rotf pos))) <> 0 ->
   {FT} (CRmsdRot ids refs extra rotf jdf) ({AP} (CRmsdRot ids refs extra rotf jdf) fc) = fc""", "exact inv_rmsd_rot.",
   "rotated frames (the default fit of rmsd / eigenvector): the rotation matrix used at the step is an input of the model; whenever it is\n   orthogonal (R R^T = 1), rotating the forces into the frame of the gradients (read_total_forces) inverts rotating the applied forces back;\n   with atomPermutation copies as above")
-T("inverse_eigenvector_rotated", f"""forall (cell : option RV) (mass : nat -> R) (pos : RF) (ids : list nat) (refs evec : list RV) (rotf : RF -> RM) (jdf : RF -> R) (fc : R),
+T("rotation_matrices", f"""forall q : RQ, qnorm2 Rops q = 1 ->
+  (forall v : RV, mvmul Rops (rotmat Rops q) (mtvmul Rops (rotmat Rops q) v) = v) /\\
+  (forall v : RV, mvmul Rops (rotmat Rops (qconj Rops q)) v = mtvmul Rops (rotmat Rops q) v)""",
+  "intros q H. split; [exact (rotmat_orthogonal q H) | exact (rotmat_conj q)].",
+  "quaternion::rotation_matrix of a unit quaternion is orthogonal (R R^T = 1) and rotation::inverse().matrix() (conjugate quaternion) is its transpose")
+T("inverse_eigenvector_rotated", f"""forall (cell : option RV) (mass : nat -> R) (pos : RF) (ids : list nat) (refs evec : list RV) (rotf : RF -> RQ) (jdf : RF -> R) (fc : R),
   NoDup ids -> length evec = length ids ->
-  (forall v : RV, mvmul Rops (rotf pos) (mtvmul Rops (rotf pos) v) = v) ->
+  qnorm2 Rops (rotf pos) = 1 ->
   norm2_sum Rops (eig_vec Rops evec) <> 0 ->
   {FT} (CEigenvectorRot ids refs evec rotf jdf) ({AP} (CEigenvectorRot ids refs evec rotf jdf) fc) = fc""", "exact inv_eigenvector_rot.")
 
@@ -251,7 +256,7 @@ props = ['''(* C07: total-force measurement is the inverse of force application.
    eng_run         : histories of (positions, engine force field, bias force on the variable), engine convention per
                      cv_samestep, "includecv" = the engine's total force contains the forces Colvars applied. *)
 From Coq Require Import ZArith List Bool Arith Reals Lra.
-From CV Require Import Base.Num Base.RNum C07.TotalForceModel C07.TotalForceProofs.
+From CV Require Import Base.Num Base.RNum C07.TotalForceModel C07.TotalForceProofs C07.DivergenceProofs.
 Import ListNotations.
 Local Open Scope R_scope.
 ''']
